@@ -174,6 +174,7 @@ func cmdCheck(args []string) int {
 	}
 	p.Contracts = cs
 	p.expandSweeps()
+	p.markViaContract()
 	var units []*FuncContract
 	for _, fc := range cs.Funcs {
 		if !fc.Trusted && hasProp(fc.Props, *prop) {
@@ -519,7 +520,8 @@ func crossCheck(results []*QResult, timeout int, par int) (int, []string) {
 					continue
 				}
 				st, _, _ := runSolverBG(sp, dir, 100000+i, r.Q.Script, timeout)
-				if st == "sat" {
+				if st == "sat" && !(strings.Contains(r.Q.Script, "(forall ") || strings.Contains(r.Q.Script, "(exists ")) {
+					// (a model claimed for a quantified script is not checkable: see solveRace)
 					bad = r.Q.Name + " (" + r.Solver + " unsat, " + sp.name + " sat)"
 				}
 				if st == "unsat" || st == "sat" {
